@@ -274,11 +274,9 @@ def check(ctx: Ctx) -> None:
     with ctx.obligation("C02.f", "exactly-one-delivery") as ob:
         cfg = build_cfg(repo, flr, Oracle(repo, flr))
         from ..util import xtext
-        cbn = None
-        for n in repo.own_nodes(flr):
-            if isinstance(n, ast.Assign) and isinstance(n.targets[0], ast.Tuple) and "_callbacks" in xtext(repo, flr, n.value):
-                cbn = unparse(n.targets[0].elts[0])
-        ob.require(cbn is not None, "callback destructuring not found in _local_receive")
+        from ._chan import entry_calls
+        cb_calls = [c for (c, origin, what) in entry_calls(repo, flr) if origin == "_callbacks entry"]
+        ob.require(bool(cb_calls), "callback destructuring not found in _local_receive")
         npaths = 0
         for path in cfg.paths(cfg.entry.id, limit=2000):
             deliveries = []
@@ -287,14 +285,14 @@ def check(ctx: Ctx) -> None:
                 if nd.ast is None:
                     continue
                 for c in calls_in_node(nd):
-                    if callee_attr(c) == "put" or (isinstance(c.func, ast.Name) and c.func.id == cbn):
+                    if callee_attr(c) == "put" or any(c is x for x in cb_calls):
                         deliveries.append(c)
             npaths += 1
             if len(deliveries) > 1:
                 ob.violation(flr, deliveries[1], "a received frame can be delivered twice (queue and callback / twice)", path=cfg.describe_path(path))
         ob.site(flr, flr.node, "every path delivers at most once", paths=npaths)
         puts = [c for c in repo.calls_in(flr) if callee_attr(c) == "put"]
-        cbs = [c for c in repo.calls_in(flr) if isinstance(c.func, ast.Name) and c.func.id == cbn]
+        cbs = cb_calls
         ob.require(len(puts) == 1 and len(cbs) == 1, "queue.put / callback(data) not found exactly once")
         from ..util import expand
         for c in puts + cbs:
